@@ -461,6 +461,15 @@ static const char *FN (step) (FN (ent) *pool, vf_rng *rng)
         degenerate_irect = (rc.x2 == rc.x1 || rc.y2 == rc.y1);
         if (degenerate_irect) name = "intersect_rect-degenerate";
         vf_inflight ("%s%d d=%d a=%d rect=[%d,%d,%d,%d]", name, SUF, d, a, rc.x1, rc.y1, rc.x2, rc.y2);
+        /* rectangles more than half the coordinate range wide or high (the width is unsigned: x = INT32_MIN with a width above 2^31 is a valid rectangle):
+         * the left / top side is pushed out to the coordinate minimum, the part inside the window is the same */
+        if (SUF == 32 && !degenerate_irect && vf_chance (rng, 1, 6) && win_x + rc.x2 > 0 && win_y + rc.y2 > 0 && win_x + rc.x2 <= INT32_MAX && win_y + rc.y2 <= INT32_MAX) {
+            int hx = vf_chance (rng, 2, 3), hy = !hx || vf_chance (rng, 1, 2);
+            { bm_t t; rect_t r2 = rc; if (hx) r2.x1 = 0; if (hy) r2.y1 = 0; bm_rect (&t, &r2); bm_intersect (&res, &pool[a].m, &t); }
+            int64_t X1 = hx ? INT32_MIN : win_x + rc.x1, Y1 = hy ? INT32_MIN : win_y + rc.y1, X2 = win_x + rc.x2, Y2 = win_y + rc.y2;
+            vf_count ("intersect_rect_beyond_half_range", 1);
+            ok = RP (intersect_rect) (&pool[d].reg, &pool[a].reg, (int)X1, (int)Y1, (unsigned int)(X2 - X1), (unsigned int)(Y2 - Y1)); break;
+        }
         ok = RP (intersect_rect) (&pool[d].reg, &pool[a].reg, (int)(win_x + rc.x1), (int)(win_y + rc.y1), rc.x2 - rc.x1, rc.y2 - rc.y1); break;
     case 6: res = pool[a].m; alias = a == d ? "d=a" : "distinct";
         vf_inflight ("%s%d d=%d a=%d", name, SUF, d, a);
